@@ -298,6 +298,7 @@ func checkC05(p *Prog, res *Result, tier string) {
 	res.rule("C05-R6", "the per-watch forwarder closes its output channel on every return", 1)
 	res.rule("C05-R12", "one party per end of a watch's channels: the hub never receives from a subscriber channel, Watch starts one consumer of it, and once a goroutine sending on the result channel is started nothing else sends on it (the replay is synchronous and precedes the forwarder)", 3)
 	res.rule("C05-R13", "the per-watch forwarder filters every batch it receives with the revision it was started with (the parameter itself on every path; no receive-to-send path avoids the filter)", 1)
+	res.rule("C05-R14", "a watch is served only by the node that sequences the writes: every Watch call of the server layer is dominated by IsLeader()==true (C18-R2) - a follower's own event history is empty, its watch stays open and silent", 2)
 	res.rule("C05-R11", "a delete hands the previous value and revision it read to the event sink on every path after the commit, whatever the commit returned: the DELETE event of a write with unknown outcome (delivered after the repair) still names what was deleted", 2)
 	res.rule("C05-R10", "a forwarder start guarded by a comparison of the requested with the committed revision uses the strict form (requested > committed)", 1)
 	res.rule("C05-R9", "a slice handed over a channel (a broadcast batch, a streamed response) is not written by the sender afterwards: no reuse of a once-allocated buffer, no reset of a field buffer by re-slicing", 2)
@@ -457,6 +458,12 @@ func checkC05(p *Prog, res *Result, tier string) {
 	checkDeletePayload(p, r, res, "C05-R11")
 	checkWatchChannelPeers(p, w, res, "C05-R12")
 	checkForwarderFiltersEveryBatch(p, w, res, "C05-R13")
+	// ---- R14: a watch is served from the event history of the leader only (C18-R2) ----
+	for _, o := range p.subResult("C18", tier).Obls {
+		if o.Rule == "C18-R2" {
+			res.add("C05-R14", o.Rule+" "+o.Construct, o.Status, o.Pos, o.Detail)
+		}
+	}
 
 	// ---- R2 ----
 	checkCacheBeforeBroadcast(p, r, w, res)
